@@ -301,6 +301,7 @@ def parse_coq_list(out: str):
     body = body.replace(";", ",").replace("true", "True").replace("false", "False")
     body = re.sub(r"\bSome\s+", "", body).replace("None", "None")
     body = re.sub(r"\s+", " ", body)
+    body = body.replace("\\", "\\\\")      # a back-slash inside a printed Coq string is a plain character
     return eval(body, {"__builtins__": {}}, {})  # noqa: S307 - our own coqc output
 
 
